@@ -486,9 +486,17 @@ def replay(ck, data):
     T = bindings.Tables(tab)
     order = {c: T.field_order(c) for c in T.order}
     r = ck.impl("c03_impl.py", {"order": order, "cases": [inp], "want": ["rec", "nonrec", "text", "file"]})["results"][0]
+    model = None
+    try:     # the model on the same tree (tables regenerated from the tree under test)
+        mode = schemagen.validate_mode(ck)
+        if "obj" in r and usable(dict(r, nonrec=r.get("nonrec", {"raised": None, "msgs": []}))) and schemagen.gen_validate(ck, tab, mode):
+            ok, res, _ = ck.coq_eval("Replay_C03.v", HEADER + "Eval vm_compute in (x_validate Gen_Validate.V %s true).\n" % gdsgen.cobj(r["obj"]))
+            model = res[0] if ok and res else None
+    except Exception as e:  # noqa
+        model = "model evaluation failed: %r" % e
     out = {"stored": {k: data.get(k) for k in ("key", "what", "expected", "observed")},
            "now": {"validate(recursive=True)": r.get("rec"), "libxml2": r.get("lx"), "is_valid_neuroml2": r.get("file_valid"),
-                   "xml": (r.get("text") or "")[:1500]}}
+                   "model Validate.validate (messages)": model, "xml": (r.get("text") or "")[:1500]}}
     print(json.dumps(out, indent=1)[:6000])
     bad = r.get("lx", {}).get("valid") is False and r.get("rec", {}).get("raised") is None
     return 1 if bad else 0
